@@ -2,8 +2,23 @@ import Tahoe.Immutable.LemmasSizes
 import Tahoe.Immutable.LemmasLayout
 import Tahoe.Immutable.LemmasPipeline
 import Tahoe.Immutable.Examples
+import Tahoe.Immutable.LemmasUploadable
 /-! C01 — immutable upload/download round-trip (property theorems; helper lemmas live in
-    `Tahoe/Immutable/Lemmas*.lean`). -/
+    `Tahoe/Immutable/Lemmas*.lean`).
+
+## Coverage of the statement (properties.jsonl C01)
+
+| clause of the statement | theorem(s) for the model |
+|---|---|
+| uploading any byte string as an immutable file and reading it back with the returned read-cap yields exactly the uploaded bytes | `upload_download` (bytes given directly) and `upload_download_any_source` (bytes supplied by any `IUploadable` keeping the contract `Supplies` + `StableKey`; the cap's key is the one returned by the *second* `get_encryption_key()` call); `stale_key_breaks_roundtrip` shows the key-stability hypothesis is necessary |
+| … for every file size: empty, literal-sized | literal files: C05 `lit_threshold`, `literal_any_source`, C04 `read_slice_literal`; the empty file is literal. In the CHK pipeline `size = 0` is an error in model and code alike (`sizes_agree`: both raise ZeroDivisionError) and is unreachable through `Uploader.upload` |
+| … on and across segment boundaries | `upload_download` (no size bound); arithmetic: `sizes_agree`, `sizes_consistent` |
+| … every valid k-of-N encoding and segment size | `upload_download` (all `1 ≤ k`, `n`, `maxSeg > 0`, every codec with the MDS law for `(k, n)`); `happy ≤ N` is C06 and plays no role in the bytes |
+| … share files on disk: offset tables v1/v2, section sizes, what the reader fetches | `offsets_wellformed`, `layout_constants` |
+| … every order in which storage servers answer requests | at model level: `upload_download` quantifies over `pick` (any k distinct share numbers per segment = whichever blocks arrived first) and C04 `read_slice` over guessed/known segment size; the asynchronous machinery that realises `pick` (ShareFinder, SegmentFetcher, Share) is **correspondence/monitor only** (seeded delivery orders in harness/props/c01.py); termination is C03/C46 |
+| grids of 1..N+3 honest servers | **monitor only** (server selection is C06/C07) |
+| hash trees / UEB hash written by the encoder and checked by the downloader | **not covered here** (C02, C35); zfec and AES are parameters with explicit laws |
+-/
 namespace Tahoe.C01
 open Tahoe.Immutable Tahoe.Immutable.Sizes Tahoe.Immutable.Layout Tahoe.Immutable.Pipeline
 open Tahoe.Generated
@@ -192,5 +207,47 @@ example : repl.Lawful 1 3 ∧ (∀ s, ValidIds 1 3 [s % 3]) ∧
   refine ⟨repl_lawful 3, fun s => ⟨rfl, by simp, fun i hi => ?_⟩, by decide, by decide⟩
   simp only [List.mem_singleton] at hi
   omega
+
+/-- `upload_download_any_source`: the round trip for bytes supplied by *any* uploadable.  For every source
+    `s` that keeps the `IUploadable` contract for `data` (`Supplies`: `get_size()` is the number of bytes and
+    `read(length)` returns strings concatenating to the next `length` bytes, fewer only at EOF — in any
+    piece sizes) and whose `get_encryption_key()` is stable (`StableKey`: the call made after `close()` for
+    the read-cap returns what the encryptor was created with), for every `CHUNKSIZE > 0`, encoding, lawful
+    codec, keystream and schedule: the upload succeeds and reading back through the cap it returned gives
+    exactly `data`.  The key itself is arbitrary (convergent hash or `os.urandom` output alike). -/
+theorem upload_download_any_source (ks : List UInt8 → Nat → Block16) (c : Codec) (s : Uploadable.Source)
+    (data : List UInt8) (k n maxSeg chunk : Nat)
+    (hs : Uploadable.Supplies s data) (hkey : Uploadable.StableKey s) (hch : 0 < chunk)
+    (hk : 1 ≤ k) (hmax : 0 < maxSeg) (hd : 0 < data.length) (hlaw : c.Lawful k n)
+    (pick : Nat → List Nat) (hpick : ∀ seg, ValidIds k n (pick seg)) :
+    ∃ u, Uploadable.uploadVia ks c s k n maxSeg chunk = .ok u ∧ u.key = s.key 1 ∧ download ks c u pick = .ok data := by
+  rw [Uploadable.uploadVia_eq ks c s data k n maxSeg chunk hs hkey hch hk hmax hd]
+  obtain ⟨u, hu, hdl⟩ := upload_download ks c (s.key 0) data k n maxSeg hk hmax hd hlaw pick hpick
+  refine ⟨u, hu, ?_, hdl⟩
+  obtain ⟨e, m, _, _, _, _, _, _, hup⟩ := upload_ok ks c (s.key 0) data k n maxSeg hk hmax hd
+  rw [hup] at hu
+  injection hu with hu
+  rw [← hu, hkey 1]
+
+/-- a source returning its bytes in odd-sized pieces keeps the contract, and the pipeline runs on it -/
+example :
+    let s := Uploadable.chunkySource [1, 2, 3, 4, 5, 6, 7] [2, 1] (fun _ => [9])
+    (s.read 1 5).flatten = [2, 3, 4, 5, 6] ∧ (s.read 1 5).length = 3 ∧ s.read 6 5 = [[7]] ∧
+    (Uploadable.uploadVia (fun key blk j => toyKs key.length blk j) repl s 1 3 2 3).toOption.map
+        (fun u => (u.ueb.numSegments, (download (fun key blk j => toyKs key.length blk j) repl u (fun g => [g % 3])).toOption))
+      = some (4, some [1, 2, 3, 4, 5, 6, 7]) := by
+  decide
+
+/-- `stale_key_breaks_roundtrip`: the `StableKey` hypothesis is necessary.  A source that keeps `Supplies` but
+    answers the second `get_encryption_key()` (after `close()`) with a different key — what a
+    `FileHandle.close()` that forgets a random key does — uploads "successfully" and its cap does not
+    read back the data. -/
+theorem stale_key_breaks_roundtrip :
+    ∃ (s : Uploadable.Source) (data : List UInt8), Uploadable.Supplies s data ∧
+      ∃ u, Uploadable.uploadVia (fun key blk j => toyKs key.length blk j) repl s 1 3 2 3 = .ok u ∧
+        download (fun key blk j => toyKs key.length blk j) repl u (fun g => [g % 3]) ≠ .ok data := by
+  refine ⟨{ size := 3, read := fun pos len => [(([1, 2, 3] : List UInt8).drop pos).take len],
+            key := fun i => if i = 0 then [1] else [1, 1] }, [1, 2, 3], ⟨rfl, fun pos len => by simp⟩, ?_⟩
+  refine ⟨_, rfl, by decide⟩
 
 end Tahoe.C01
